@@ -481,8 +481,8 @@ class Disk(ConvexCollider):
             search_direction, self.c, self.radius, self.normal)
 
     def update_pose(self, pose):
-        self.c = pose[:3, 3]
-        self.normal = pose[:3, 2]
+        self.c = np.ascontiguousarray(pose[:3, 3])
+        self.normal = np.ascontiguousarray(pose[:3, 2])
         if self.artist_ is not None:
             self.artist_.set_data(pose)
 
@@ -535,8 +535,8 @@ class Ellipse(ConvexCollider):
             search_direction, self.c, self.axes, self.radii)
 
     def update_pose(self, pose):
-        self.c = pose[:3, 3]
-        self.axes = pose[:3, :2].T
+        self.c = np.ascontiguousarray(pose[:3, 3])
+        self.axes = np.ascontiguousarray(pose[:3, :2].T)
         if self.artist_ is not None:
             self.artist_.set_data(pose)
 
